@@ -547,7 +547,12 @@ func (c *Ctx) c09RunShapes(tag string, groups [][]c09Shape, cpu, cutoff float64,
 		return
 	}
 	c.Note(fmt.Sprintf("%s.tris~%d", tag, c09Bucket(mesh.PrimitiveCount())))
-	c.Emit(strictOp, c09MeshTokens(mesh, true, false), "true")
+	if tag == "pipe" {
+		// random generic canvases: strict closed, or exactly the fine-resolution weld pinch (known finding class 3)
+		c.Emit("c09.holds.closed_or_weld_pinch", F(cpu)+" "+c09MeshTokens(mesh, true, true), "true")
+	} else {
+		c.Emit(strictOp, c09MeshTokens(mesh, true, false), "true")
+	}
 	c.Emit("c09.holds.balanced", c09MeshTokens(mesh, true, false), "true")
 	c.Emit("c09.holds.outward", c09MeshTokens(mesh, true, true), "true")
 	c.Emit("c09.holds.near_iso", Fs(cpu, cutoff)+" "+strconv.Itoa(len(toks))+" "+strings.Join(toks, " ")+" "+c09MeshTokens(mesh, false, true), "true")
@@ -594,7 +599,11 @@ func (c *Ctx) c09AccumulatedCase(name string, cpu, cutoff float64, shapes []c09S
 	}
 	c.Note(fmt.Sprintf("acc.tris~%d", c09Bucket(mesh.PrimitiveCount())))
 	head := Fs(cpu, cutoff) + " " + strconv.Itoa(len(toks)) + " " + strings.Join(toks, " ")
-	c.Emit("c09.holds.closed", c09MeshTokens(mesh, true, false), "true")
+	if name == "random" {
+		c.Emit("c09.holds.closed_or_weld_pinch", F(cpu)+" "+c09MeshTokens(mesh, true, true), "true")
+	} else {
+		c.Emit("c09.holds.closed", c09MeshTokens(mesh, true, false), "true")
+	}
 	c.Emit("c09.holds.balanced", c09MeshTokens(mesh, true, false), "true")
 	c.Emit("c09.holds.outward", c09MeshTokens(mesh, true, true), "true")
 	c.Emit("c09.holds.near_iso_accumulated", head+" "+c09MeshTokens(mesh, false, true), "true")
@@ -916,8 +925,30 @@ func (c *Ctx) c09EmptyCases() {
 	}
 }
 
+// known finding class 3: the weld tolerance (1e-3 world units) does not scale with the cell size; at 37 cubes per unit two
+// neighbouring vertices that each fall into the weld cell of a lattice corner make one edge shared by four triangles
+func (c *Ctx) c09WeldPinchWitness() {
+	var mesh modeling.Mesh
+	status := Guard(func() string {
+		canvas := marching.NewMarchingCanvas(37)
+		canvas.AddField(marching.Line(vector3.New(-2.7913185694398499, -0.051802064006358665, -4.0988080711193984),
+			vector3.New(-2.6150462889414543, 0.11776715638423096, -3.9279864455842559), 0.08582541386874018, 2))
+		mesh = canvas.March(-0.0051772346071287008)
+		return "ok"
+	})
+	c.Note("weld-pinch.witness")
+	if status != "ok" {
+		c.Emit("c09.holds.closed_weld_pinch_witness", "0 0", status)
+		return
+	}
+	c.Emit("c09.holds.closed_weld_pinch_witness", c09MeshTokens(mesh, true, false), "true")
+	c.Emit("c09.holds.balanced", c09MeshTokens(mesh, true, false), "true")
+	c.Emit("c09.holds.closed_or_weld_pinch", F(37)+" "+c09MeshTokens(mesh, true, true), "true")
+}
+
 func runC09(c *Ctx) {
 	c.c09EmptyCases()
+	c.c09WeldPinchWitness()
 	c.c09AccumulatedCases(c.N / 2)
 	// lattice-aligned / exact-cutoff classes: the fixed catalogue in both tiers, then N random members
 	for _, a := range c09AlignedCatalogue() {
